@@ -99,7 +99,11 @@ class Ctx:
         self.classes[cls] += 1
         if nontrivial and key is not None:
             if len(self.distinct) < DISTINCT_CAP:
-                self.distinct.add(hash((cls, key)) & 0xFFFFFFFFFFFFFFFF)
+                try:
+                    hv = hash((cls, key))
+                except TypeError:
+                    hv = hash((cls, repr(key)))
+                self.distinct.add(hv & 0xFFFFFFFFFFFFFFFF)
             else:
                 self.distinct_overflow += 1
         if sample is not None and self._samples_per_class[cls] < 2 and len(self.samples) < 60:
